@@ -97,7 +97,9 @@ def peatclsm_sy(draw):
         }
     return {
         'type': 'peatclsm',
-        'sd': draw(st.floats(0.02, 2.0).map(rounded)),
+        'sd': draw(st.one_of(st.floats(0.02, 2.0), st.floats(0.0005, 0.02),
+                             st.sampled_from([0.001, 0.004, 0.005, 0.01]))
+                   .map(rounded)),
         'theta_s': draw(st.floats(0.01, 1.0).map(rounded)),
         'b': draw(st.one_of(st.floats(0.01, 1.0), st.floats(1.0, 20.0))
                   .map(rounded)),
